@@ -59,6 +59,49 @@ func c02Case(rec *vu.Recorder, rng *rand.Rand, nodes []c02Node, total int64) {
 	rec.Emit(vu.Ev{"op": "share", "runs": runs})
 }
 
+// 64-bit-scale inputs (memory in bytes): the exact amounts run through the real code, the log carries them in units of
+// c02Unit (floor division, also for negative results) because TLC's integers are 32 bit wide
+const c02Unit = int64(1) << 20
+
+func c02Floor(v int64) int64 {
+	q := v / c02Unit
+	if v%c02Unit != 0 && v < 0 {
+		q--
+	}
+	return q
+}
+
+func c02CaseCoarse(rec *vu.Recorder, rng *rand.Rand, nodes []c02Node, total int64) {
+	type cn struct {
+		Name string `json:"name"`
+		Req  int64  `json:"req"`
+		Min  int64  `json:"min"`
+		Guar int64  `json:"guar"`
+		Lent bool   `json:"lent"`
+		WPos bool   `json:"wpos"`
+	}
+	cns := make([]cn, len(nodes))
+	for i, n := range nodes {
+		cns[i] = cn{Name: n.Name, Req: c02Floor(n.Req), Min: c02Floor(n.Min), Guar: c02Floor(n.Guar), Lent: n.Lent, WPos: n.W > 0}
+	}
+	exact, _ := json.Marshal(vu.Ev{"nodes": nodes, "total": total}) // as a string: 64-bit values are not for TLC
+	rec.Reset(vu.Ev{"nodes": cns, "total": c02Floor(total), "unit": c02Unit, "exact": string(exact)})
+	n := len(nodes)
+	var runs [][]int64
+	orders := [][]int{make([]int, n), make([]int, n), rng.Perm(n), rng.Perm(n)}
+	for i := 0; i < n; i++ {
+		orders[0][i], orders[1][i] = i, n-1-i
+	}
+	for _, o := range orders {
+		r := c02RunOnce(nodes, total, o)
+		for i := range r {
+			r[i] = c02Floor(r[i])
+		}
+		runs = append(runs, r)
+	}
+	rec.Emit(vu.Ev{"op": "shareCoarse", "runs": runs})
+}
+
 func c02Name(i int) string { return fmt.Sprintf("q%02d", i) }
 
 func TestVerifC02(t *testing.T) {
@@ -154,6 +197,49 @@ func TestVerifC02(t *testing.T) {
 			total = 30000
 		}
 		c02Case(rec, rng, nodes, total)
+	}
+	// (c) 64-bit-scale memory values: weights up to 2^35, amounts up to 2^37 bytes; the products weight * left-over
+	// range over 2^57 .. 2^68, across the 2^63 and 2^64 boundaries of the 128-bit arithmetic
+	nbig := 600
+	if vu.Thorough() {
+		nbig = 10000
+	}
+	pow := func(lo, hi int) int64 {
+		return (int64(1) << uint(lo+rng.Intn(hi-lo+1))) + rng.Int63n(int64(1)<<uint(lo))
+	}
+	for c := 0; c < nbig; c++ {
+		n := 2 + rng.Intn(5)
+		nodes := make([]c02Node, n)
+		var sumMin, sumReq int64
+		for i := range nodes {
+			nd := c02Node{Name: c02Name(i + 1), Req: pow(28, 36), Min: pow(24, 33), W: pow(30, 35), Lent: rng.Intn(2) == 0}
+			switch rng.Intn(6) {
+			case 0:
+				nd.W = 0
+			case 1:
+				nd.Min = 0
+			case 2:
+				nd.Req = nd.Min
+			}
+			if rng.Intn(5) == 0 {
+				nd.Guar = pow(24, 33)
+			}
+			nodes[i] = nd
+			sumMin += nd.Min
+			sumReq += nd.Req
+		}
+		var total int64
+		switch rng.Intn(4) {
+		case 0:
+			total = rng.Int63n(sumMin + 1)
+		case 1:
+			total = sumMin + pow(27, 33) // a left-over of 2^27 .. 2^34 to share by weight
+		case 2:
+			total = sumMin + rng.Int63n(sumReq+1)
+		default:
+			total = sumReq + pow(20, 30)
+		}
+		c02CaseCoarse(rec, rng, nodes, total)
 	}
 	t.Logf("C02: %d segments, %d events", rec.Segments(), rec.Events())
 }
